@@ -120,7 +120,11 @@ func refill(m, src model.Row) model.Row {
 
 func c18Row(t, j int) model.Row {
 	e := strconv.Itoa(c18Epoch)
-	return model.Row{"id": fmt.Sprintf("%st%d_%d", c18LongTag, t, j), "c": "shared", "d": "thread" + strconv.Itoa(t), "e" + e: "v" + e, "cold": "x"}
+	r := model.Row{"id": fmt.Sprintf("%st%d_%d", c18LongTag, t, j), "c": "shared", "d": "thread" + strconv.Itoa(t), "e" + e: "v" + e}
+	if j > 0 {
+		r["cold"] = "x" // only the later rows of a thread bring the value of the very first rows back
+	}
+	return r
 }
 
 type c18Obs struct {
@@ -335,12 +339,12 @@ func c18Run(ctx *rt.Ctx) []*rt.Violation {
 	type kr struct{ k, r, pre int }
 	cfgs := []kr{{2, 2, 0}, {3, 1, 0}, {2, 1, 999}, {2, 2, 998}}
 	if ctx.Thorough() {
-		cfgs = []kr{{2, 2, 0}, {3, 1, 0}, {3, 2, 0}, {4, 1, 0}, {2, 3, 0}, {2, 1, 999}, {2, 2, 998}, {3, 1, 998}, {3, 1, 999}, {2, 2, 999}, {2, 1, 65535}, {2, 1, 131071}}
+		cfgs = []kr{{2, 2, 0}, {3, 1, 0}, {3, 2, 0}, {4, 1, 0}, {2, 3, 0}, {2, 1, 999}, {2, 2, 998}, {3, 1, 998}, {3, 1, 999}, {2, 2, 999}, {2, 2, 65535}, {2, 2, 131071}}
 	}
 	var jobs []rt.Job
 	for _, w := range []ix.Writer{ix.MemFile, ix.Big} {
 		for _, c := range cfgs {
-			if w == ix.MemFile && c.pre > 0 && !(c.k == 2 && c.r == 1) {
+			if w == ix.MemFile && c.pre > 0 && c.pre < 60000 && !(c.k == 2 && c.r == 1) {
 				continue // the 1000-row commit only exists in the big writer
 			}
 			pb, _ := json.Marshal(c18Params{Writer: int(w), K: c.k, R: c.r, Pre: c.pre})
